@@ -46,6 +46,22 @@ def run(ctx):
                 R.rel("cat", ["C14"], a=x, b=sid, ab=xs)
                 R.rel("cat", ["C14"], a=xs, b=y, ab=xsy)
                 npairs += 3
+    # adjacent reservations / data directives (anything that merges neighbouring ocodes shows up here)
+    def resb(n):
+        return {"k": "resb", "e": {"o": "n", "v": n}}
+    def db(*v):
+        return {"k": "data", "mn": "DB", "items": [{"t": "e", "e": {"o": "n", "v": x}} for x in v]}
+    adj = [[resb(3)], [resb(2)], [resb(0)], [db(1, 2)], [db(255)], [{"k": "data", "mn": "DW", "items": [{"t": "e", "e": {"o": "n", "v": 513}}]}],
+           [resb(3), resb(2)], [db(1), db(2)], [resb(1), db(7), resb(1)]]
+    for A in adj:
+        for Bq in adj:
+            a = R.add(A)
+            b = R.add(Bq)
+            ab = R.add(A + Bq)
+            R.rel("cat", ["C14"], a=a, b=b, ab=ab)
+            abq = R.add(A + [{"k": "equ", "nm": "ZZ", "e": {"o": "n", "v": 1}}, {"k": "label", "nm": "mid"}] + Bq)     # separated only by statements that emit nothing
+            R.rel("cat", ["C14"], a=a, b=b, ab=abq)
+            npairs += 2
     # statements whose bytes depend on EQU constants: the value of a symbol must not depend on which statements used it before
     Q = lambda n: {"o": "id", "nm": n}
     Nn = lambda v: {"o": "n", "v": v}
@@ -68,6 +84,15 @@ def run(ctx):
         a = R.add(epre + A)
         b = R.add(epre + Bq)
         ab = R.add(epre + A + Bq)
+        R.rel("cat", ["C14"], a=a, b=b, ab=ab)
+        npairs += 1
+    # a constant name redefined between uses: each use sees the definition in force at that point
+    for v1, v2 in ((1, 2), (10, 20), (0x60, 0x64)):
+        A = [{"k": "equ", "nm": "NN", "e": Nn(v1)}, equ_stmt(Q("NN"), 2), equ_stmt(B("+", Q("NN"), Nn(1)), 1)]
+        Bq = [{"k": "equ", "nm": "NN", "e": Nn(v2)}, equ_stmt(Q("NN"), 2), equ_stmt(B("*", Q("NN"), Nn(2)), 1)]
+        a = R.add(A)
+        b = R.add(Bq)
+        ab = R.add(A + Bq)
         R.rel("cat", ["C14"], a=a, b=b, ab=ab)
         npairs += 1
     R.run()
